@@ -126,6 +126,31 @@ def judge_table(table, newick, rec, mutname, samples, tree, label, clustered):
                         probs.append(("newick", "clone %s has parent %s in the Newick tree, expected %s" % (node, p, exp_p)))
         except outputs.OutputError as ex:
             probs.append(("newick", str(ex)))
+    # self-consistency of the CCF columns with the accompanying tree: clone >= sum of children, top level <= 1,
+    # clonal prevalence = CCF - children (judged on the table alone, independent of the MAP code path)
+    if newick is not None:
+        try:
+            par2 = outputs.parse_newick(newick)
+            kids2 = {}
+            for k_, p_ in par2.items():
+                kids2.setdefault(p_, []).append(k_)
+            vals = {}
+            for k, row in clone_id_of_row.items():
+                if int(row["clone_id"]) != -1:
+                    vals[(str(int(row["clone_id"])), k[1])] = (float(row["ccf"]), float(row["clonal_prev"]))
+            for (cid, si), (ccf, cp) in vals.items():
+                ch = [vals[(c_, si)][0] for c_ in kids2.get(cid, []) if (c_, si) in vals]
+                if len(ch) == len(kids2.get(cid, [])):
+                    if ccf < sum(ch) - 1e-9:
+                        probs.append(("ccf_infeasible", "clone %s sample %d: ccf %s is below the sum of its children's %s" % (cid, si, ccf, sum(ch))))
+                    if abs(cp - (ccf - sum(ch))) > 1e-9 or cp < -1e-9:
+                        probs.append(("clonal_prev", "clone %s sample %d: clonal_prev %s, ccf minus children = %s" % (cid, si, cp, ccf - sum(ch))))
+            for si in {k[1] for k in vals}:
+                top = [vals[(c_, si)][0] for c_ in kids2.get("root", []) if (c_, si) in vals]
+                if sum(top) > 1 + 1e-9:
+                    probs.append(("ccf_infeasible", "sample %d: top-level clones' ccf sum to %s" % (si, sum(top))))
+        except outputs.OutputError:
+            pass
     # CCF / clonal prevalence columns (clones matched by the data they own: files may number clones differently)
     if tree is not None:
         ccfs, prev = get_map_node_ccfs_and_clonal_prev_dicts(tree)
